@@ -233,9 +233,11 @@ class Ctx:
         return obs
 
     # ---- ground axioms for the uninterpreted applications that occur ----
-    def axioms(self):
+    def axioms(self, relevant=None):
         ax = []
         apps = dict(self.uf_apps)
+        if relevant is not None:
+            apps = {i: v for i, v in apps.items() if i in relevant}
         decl = []
         by_kind = {}
         for i, (k, ids, args) in sorted(apps.items()):
@@ -258,6 +260,7 @@ class Ctx:
                 ax.append("(=> (= %s 1.0) (= %s 0.0))" % (args[0], u))
             elif k in ("sin", "cos"):
                 ax.append("(and (<= (- 1.0) %s) (<= %s 1.0))" % (u, u))
+                ax.append("(=> (= %s 0.0) (= %s %s))" % (args[0], u, "0.0" if k == "sin" else "1.0"))
             elif k == "atan2":
                 ax.append("(and (<= (- PI) %s) (<= %s PI))" % (u, u))
                 ax.append("(=> (and (= %s 0.0) (= %s 0.0)) (= %s 0.0))" % (args[0], args[1], u))
@@ -289,6 +292,7 @@ class Ctx:
         # numeric brackets: a comparison of (an affine function of) a power / root with a constant is decided by
         # comparing the base with a rational bracket of the exact root (verified in exact integer arithmetic)
         for (theta, ufid) in self.thresholds():
+            if ufid not in apps: continue
             k, ids, args = apps[ufid]
             u = "u%d" % ufid
             if k == "cbrt":
@@ -395,7 +399,7 @@ class Ctx:
 
     def premises(self):
         rec = self.rec
-        pre = []
+        pre = list(getattr(self, "proven_lemmas", []))
         for name, vid, lo, hi in rec["vars"]:
             v = self.t(vid)
             pre.append("(<= %s %s)" % (rat(F(lo)), v) if F(lo).denominator < 10**12 else "(<= %s %s)" % (rat(F(lo).limit_denominator(10**12)), v))
@@ -406,11 +410,18 @@ class Ctx:
             pre.append(self.t(c))
         return pre
 
-    def query(self, goal_smt, extra_roots=()):
-        """SMT-LIB text of  premises & axioms & not goal"""
+    def query(self, goal_smt, goal_roots=None):
+        """SMT-LIB text of  premises & axioms & not goal. With goal_roots, only the uninterpreted applications
+        reachable from the goal, the path condition and the assumptions get axioms (relevance slicing)."""
         pre = self.premises()
-        # make sure every term of the goal is translated before axioms are collected
-        decl, ax = self.axioms()
+        relevant = None
+        if goal_roots is not None:
+            roots = list(goal_roots) + [c for c, _ in self.rec["pc"]] + list(self.rec["assumes"])
+            relevant = self.reach(roots)
+        decl, ax = self.axioms(relevant)
+        if relevant is not None:
+            # every named application that is mentioned must still be declared
+            decl = ["(declare-const u%d Real)" % i for i in sorted(self.uf_apps)] + [d for d in decl if not d.startswith("(declare-const u")]
         lines = ["(set-logic ALL)", "(declare-const PI Real)",
                  "(assert (and (< (/ 3141592653589793.0 1000000000000000.0) PI) (< PI (/ 3141592653589794.0 1000000000000000.0))))"]
         for name, vid, lo, hi in self.rec["vars"]:
@@ -554,15 +565,19 @@ def check_path(prop, prog, meta, rec, timeout):
                 break
     # 1. definedness
     dgoals = ctx.definedness([c for _, c in goals] + [c for _, c in rec["outputs"]])
-    items = [("ensure." + n, ctx.t(c), True) for n, c in goals] + [(n, c, False) for n, c in dgoals]
-    for name, smt_goal, is_ensure in items:
+    items = [("ensure." + n, ctx.t(c), True, [c]) for n, c in goals] + [(n, c, False, None) for n, c in dgoals]
+    for name, smt_goal, is_ensure, groots in items:
         o = Ob("%s.%s" % (base, name), "smt", "complete", meta["func"], meta["desc"] + " [" + name + "]")
-        q = ctx.query(smt_goal)
+        q = ctx.query(smt_goal, groots)
         v, solver, dt, out, qpath = solve(q, timeout=timeout, tag=o.id)
         o.time = dt; o.backend = solver
         o.extra = {"smt_file": qpath, "path_mode": mode}
         if v == "unsat":
             o.status = DISCHARGED
+            if is_ensure and name.startswith("ensure.lemma."):
+                # a discharged cut point becomes a premise of the later obligations of this path
+                if not hasattr(ctx, "proven_lemmas"): ctx.proven_lemmas = []
+                ctx.proven_lemmas.append(smt_goal)
         elif v == "sat":
             # counterexample search with the property's floating point tolerance, then replay on the real code
             ctx2 = Ctx(rec, tol_mode="float")
